@@ -9,10 +9,10 @@ Import ListNotations.
 Local Open Scope Z_scope.
 
 (* A predicate nonterminal of the generated test grammars: it matches a set of short token sequences
-   (token -1 = any token of the alphabet 0..ntok-1); with a guard g >= 0 the nonterminal itself starts with
-   a nested lookahead: the sequences p_seqs are tried when predicate g holds at the same position, p_seqs_not
-   otherwise. *)
-Record pdef := mkP { p_input : Z; p_guard : Z; p_seqs : list (list Z); p_seqs_not : list (list Z) }.
+   (token -1 = any token of the alphabet 0..ntok-1).  It has one or more sides  (?= guard) seq | seq | ...;
+   a side with an empty guard is unconditional; a non-empty guard is a nested lookahead, a conjunction of
+   literals over other predicates evaluated at the same position. *)
+Record pdef := mkP { p_input : Z; p_sides : list (list (Z * bool) * list (list Z)) }.
 
 Fixpoint is_prefix (ntok : Z) (s rest : list Z) : bool :=
   match s, rest with
@@ -31,7 +31,7 @@ Fixpoint find_def (defs : list pdef) (i : Z) : option pdef :=
   | d :: rest => if p_input d =? i then Some d else find_def rest i
   end.
 
-(* outcome of predicate (input) i on the remaining tokens *)
+(* outcome of predicate (input) i on the remaining tokens: some side whose guard holds matches *)
 Fixpoint pred_at (fuel : nat) (ntok : Z) (defs : list pdef) (rest : list Z) (i : Z) : bool :=
   match fuel with
   | O => false
@@ -39,9 +39,9 @@ Fixpoint pred_at (fuel : nat) (ntok : Z) (defs : list pdef) (rest : list Z) (i :
       match find_def defs i with
       | None => false
       | Some d =>
-          if p_guard d <? 0 then matches ntok (p_seqs d) rest
-          else if pred_at f ntok defs rest (p_guard d) then matches ntok (p_seqs d) rest
-          else matches ntok (p_seqs_not d) rest
+          existsb (fun side =>
+              forallb (fun lit => xorb (pred_at f ntok defs rest (fst lit)) (snd lit)) (fst side)
+              && matches ntok (snd side) rest) (p_sides d)
       end
   end.
 
